@@ -290,7 +290,16 @@ class Run:
         rdir = os.path.join(BUILD, "replay", self.pid)
         os.makedirs(rdir, exist_ok=True)
         lines = []
-        for i, (kind, detail, found) in enumerate(self.violations[:20]):
+        # report at most 3 violations per (kind, stream), 30 in all
+        seen = collections.Counter()
+        chosen = []
+        for v in self.violations:
+            key = (v[0], v[1].get("stream", ""))
+            if seen[key] < 3 and len(chosen) < 30:
+                chosen.append(v)
+            seen[key] += 1
+        self.extra["violations_by_stream"] = {f"{k[0]}/{k[1]}": n for k, n in seen.items()}
+        for i, (kind, detail, found) in enumerate(chosen):
             path = os.path.join(rdir, f"{self.tier}-{self.seed}-{i}.json")
             json.dump({"property": self.pid, "kind": kind, "seed": self.seed, "tier": self.tier,
                        "failing_input_found": found, **detail}, open(path, "w"), indent=1, ensure_ascii=False)
